@@ -138,7 +138,7 @@ func isPermanent(k string) bool { return strings.HasSuffix(k, "!") }
 func (a *Action) Exec(bs map[string]interface{}) ExecResult {
 	if a.Stub != "" {
 		switch a.Stub {
-		case "nil-err", "partial-err":
+		case "nil-err", "partial-err", "slice-err":
 			return ExecResult{Outcome: "fail"}
 		case "nil-bs":
 			return ExecResult{Outcome: "null"}
@@ -181,6 +181,8 @@ func (a *Action) Exec(bs map[string]interface{}) ExecResult {
 			if v, ok := w[op.K]; !ok || !scalarEq(v, op.V) {
 				return ExecResult{Outcome: "null", Emitted: out}
 			}
+		case "setundef":
+			w[op.K] = nil
 		case "globalinc":
 			// counts in a global of the script's runtime: every execution starts from a fresh one
 			gi++
